@@ -267,6 +267,7 @@ func TestCheck(t *testing.T) {
 			m.Run(run)
 		}
 	}
+	runMonitor(run)
 	runSched(run)
 	os.Exit(run.Finish())
 }
@@ -279,6 +280,9 @@ func replay(run *report.Run, ms []*explore.Model) int {
 	}
 	if strings.HasPrefix(v.Part, "sched:") {
 		return replaySched(run, v)
+	}
+	if v.Part == "ha.HealthMonitor-probes" {
+		return replayMonitor(run, v)
 	}
 	for _, m := range ms {
 		if m.Name+"["+m.Config+"]" == v.Part {
